@@ -172,28 +172,41 @@ def dispatch (filename : Str) : Dispatch :=
   else if hasSuffix filename ".zip".toList then .zip
   else .unsupported
 
+/-- the non-empty proper prefixes of a key together with the key itself -/
+def withAncestors : Key → List Key
+  | [] => []
+  | c :: cs => [c] :: (withAncestors cs).map (c :: ·)
+
+/-- what is not at or below `k` -/
+def outsideOf (fs : FS) (k : Key) : FS := fs.filter fun (q, _) => !k.isPrefixOf q
+
 /-- `checkDownloadAndExtractLib` for a single caller that finds `dst` absent.
     `arFile` is the downloaded archive (file name, bytes), which `downloadAndExtractArchive` stores *inside*
-    the directory it extracts into.  Result: the tree at `dst`, or the error; `none` for `.tar.xz`, which is
-    handed to the external `tar` program (a parameter of the model, not modelled). -/
+    the directory it extracts into.  Result: did the call succeed, and everything that exists afterwards
+    (the tree at `dst` on success; whatever an unconfined entry created outside the temporary directory in
+    either case — the deferred `os.RemoveAll`s only remove the temporary directories).  `none` for `.tar.xz`,
+    which is handed to the external `tar` program (a parameter of the model, not modelled). -/
 def libResult (cfg : Cfg) (dst : Str) (sub : Str) (arFile : Comp × Bytes)
-    (ar : List Entry) : Option (Except Err FS) :=
+    (ar : List Entry) : Option (Bool × FS) :=
   let tmp := dst ++ ".extract.temp".toList
   let ext := dst ++ ".extract".toList
-  -- os.RemoveAll(tempDir); os.MkdirAll(tempDir); downloadFile(url, tempDir/filename)
-  let fs0 : FS := [(comps tmp ++ [arFile.1], .file arFile.2), (comps tmp, .dir)]
-  let go (f : Format) : Except Err FS :=
+  -- acquireLock: os.MkdirAll(parent); os.RemoveAll(tempDir); os.MkdirAll(tempDir); downloadFile(url, tempDir/filename)
+  let base : FS := (withAncestors (comps tmp)).map fun k => (k, Node.dir)
+  let fs0 : FS := (comps tmp ++ [arFile.1], .file arFile.2) :: base
+  let parents : FS := outsideOf base (comps tmp)
+  let go (f : Format) : Bool × FS :=
     match extract cfg f tmp fs0 ar with
-    | (_, some err) => .error err
+    | (fs1, some _) => (false, outsideOf (dedup fs1 []) (comps tmp))
     | (fs1, none) =>
       -- os.Rename(tempDir, destDir); srcDir = filepath.Join(tempExtractDir, sub); os.Rename(srcDir, dstDir)
-      let fs2 := moveTree (dedup fs1 []) (comps tmp) (comps ext)
+      let all := dedup fs1 []
+      let fs2 := moveTree all (comps tmp) (comps ext)
       let src := if sub = [] then ext else join ext sub
       match lookup fs2 (comps src) with
-      | none => .error .rename
-      | some _ => .ok (moveTree fs2 (comps src) (comps dst))
+      | none => (false, outsideOf all (comps tmp))
+      | some _ => (true, moveTree fs2 (comps src) (comps dst) ++ outsideOf all (comps tmp))
   match dispatch arFile.1 with
-  | .unsupported => some (.error .unsupported)
+  | .unsupported => some (false, parents)
   | .txz => none
   | .tgz => some (go .tgz)
   | .zip => some (go .zip)
